@@ -17,8 +17,9 @@ OVERFLOW = dict(on=False, n=0)      # opt-in field-overflow model, see overflow_
 
 def overflow_model(on=True):
     """opt-in; call at the start of EVERY path (it restarts the per-path count of formatted fields).
-    When on, at most ONE fixed-point field '{:w.pf}' per path may fill or exceed its width: at the k-th such format call the explorer forks on
-    (ovf_field == k  and  x >= 10^(w-p-2) or x <= -10^(w-p-3))  - the magnitudes at which the rendering of x has no leading blank - and on that side the
+    When on, at most ONE field '{:w.pf}' or '{:w.pe}' per path may fill or exceed its width: at the k-th such format call the explorer forks on
+    (ovf_field == k  and  x >= 10^(w-p-2) or x <= -10^(w-p-3))  - the magnitudes at which the rendering of x has no leading blank; for 'e': the sign /
+    3-digit-exponent combinations whose length p+6(+1)(+1) reaches w - and on that side the
     token is returned WITHOUT left padding, so a writer that relies on the field width to separate columns produces run-together columns that the
     reader cannot split.  N fields give N+1 paths.  Integer fields of concrete values are rendered by Python itself and are not modelled."""
     OVERFLOW.update(on=on, n=0)
@@ -26,16 +27,24 @@ def overflow_model(on=True):
 
 def _overflows(x, spec):
     from .core import Ctx, SymB
-    mf = re.fullmatch(r"\s*[<>^]?[+\- ]?(\d+)\.(\d+)[fF]", spec or "")
+    mf = re.fullmatch(r"\s*[<>^]?[+\- ]?(\d+)\.(\d+)([fFeE])", spec or "")
     if not mf or Ctx.cur is None or not x.n.im().iszero():
         return False
     i = OVERFLOW["n"]
     OVERFLOW["n"] += 1
     w, p = int(mf.group(1)), int(mf.group(2))
-    hi, lo = Fr(10) ** (w - p - 2), -Fr(10) ** (w - p - 3)
     xv = x.zreal()
     q = lambda f: z3.Q(f.numerator, f.denominator)
-    return bool(SymB(z3.And(zvar("ovf_field") == i, z3.Or(xv >= q(hi), xv <= q(lo))), atoms=x.atoms()))
+    if mf.group(3) in "fF":
+        full = z3.Or(xv >= q(Fr(10) ** (w - p - 2)), xv <= q(-Fr(10) ** (w - p - 3)))
+    else:
+        # '%w.pe': d.ddd..e+XX has p+6 characters, one more for a minus sign, one more for a 3-digit exponent (|x| >= 1e100)
+        big = z3.Or(xv >= q(Fr(10) ** 100), xv <= q(-Fr(10) ** 100))
+        alts = [z3.And(xv < 0 if neg else xv >= 0, big if e3 else z3.Not(big)) for neg in (0, 1) for e3 in (0, 1) if p + 6 + neg + e3 >= w]
+        if not alts:
+            return False
+        full = z3.Or(*alts)
+    return bool(SymB(z3.And(zvar("ovf_field") == i, full), atoms=x.atoms()))
 
 
 def format_sym(x, spec):
